@@ -354,6 +354,14 @@ pub fn run_check(cfg: CheckCfg, specs: Vec<WorkerSpec>, corpus_info: Value) -> i
     let t0 = Instant::now();
     let prop = cfg.prop.clone();
     let timeout = cfg.timeout;
+    // diagnosis: BSSIM_ONLY_RUNS=1700,1725 keeps just these run indexes
+    let specs: Vec<WorkerSpec> = match std::env::var("BSSIM_ONLY_RUNS") {
+        Ok(l) => {
+            let keep: Vec<u64> = l.split(',').filter_map(|x| x.trim().parse().ok()).collect();
+            specs.into_iter().filter(|s| keep.contains(&s.run_idx)).collect()
+        }
+        Err(_) => specs,
+    };
     let total = specs.len();
     let results: Vec<RunRecord> = parallel(specs, nworkers(), move |s| {
         let t = Instant::now();
